@@ -437,13 +437,11 @@ MatrixOf(ts, vecs) ==
 DirectVecs(D, q, dv) == LET ts == Steps(q) IN [i \in 1..Len(ts) |-> EvalTop(D, q.e, ts[i], dv)]
 
 \* as-implemented deviation models of the open findings (known_findings.json): the answers they predict
-\* (the last entry is the combination: it is evaluated when at least two of its models are relevant, with the relevant ones only,
-\* and carries their ids in the field ids)
-KnownDevs == << <<"F-C18-1", {"empty_matcher_ignored"}>>, <<"F-C18-2", {"regex_unanchored"}>>,
-               <<"F-C18-3", {"nested_bool_filters"}>>, <<"F-C18-4", {"unknown_label_ignored"}>>,
-               <<"F-C18-10", {"nan_passes_comparison"}>>, <<"F-C18-11", {"minmax_sentinel_leaks"}>>,
-               <<"F-C18-combined", {"empty_matcher_ignored", "regex_unanchored", "unknown_label_ignored", "nan_passes_comparison",
-                                    "minmax_sentinel_leaks"}>> >>
+\* ImplDevs: the models that are evaluated for every case (alone and in every combination of the ones that are relevant to
+\* the expression: the real answer may show any subset of them - e.g. the sentinel of F-C18-11 leaks only in the plan shapes
+\* that the executor evaluates by hash aggregation)
+ImplDevs == {"empty_matcher_ignored", "regex_unanchored", "nested_bool_filters", "unknown_label_ignored", "nan_passes_comparison",
+             "minmax_sentinel_leaks"}
 FindingOfDev(d) == CASE d = "empty_matcher_ignored" -> "F-C18-1" [] d = "regex_unanchored" -> "F-C18-2"
                      [] d = "nested_bool_filters" -> "F-C18-3" [] d = "unknown_label_ignored" -> "F-C18-4"
                      [] d = "nan_passes_comparison" -> "F-C18-10" [] d = "minmax_sentinel_leaks" -> "F-C18-11" [] OTHER -> "?"
@@ -468,7 +466,8 @@ DevRelevant(D, e, d) ==
     [] OTHER -> TRUE
 
 
-RelevantOf(D, e, k) == {d \in KnownDevs[k][2] : DevRelevant(D, e, d)}
+Relevant(D, e) == {d \in ImplDevs : DevRelevant(D, e, d)}
+Combos(D, e) == (SUBSET Relevant(D, e)) \ {{}}
 
 RECURSIVE RfnNodes(_)
 RfnNodes(e) == CASE e.k = "rfn" -> {e}
@@ -493,9 +492,7 @@ WellFormed(D, q) ==
   /\ \A i \in 1..Len(Steps(q)) : OkTop(D, q.e, Steps(q)[i], Dev)
   /\ AllowRunaway \/ ~Runaway(D, q)
   \* the predictions of the deviation models that can change the answer must be defined too
-  /\ \A k \in 1..Len(KnownDevs) :
-       (\E d \in KnownDevs[k][2] : DevRelevant(D, q.e, d)) =>
-          \A i \in 1..Len(Steps(q)) : OkTop(D, q.e, Steps(q)[i], Dev \cup RelevantOf(D, q.e, k))
+  /\ \A S \in Combos(D, q.e) : \A i \in 1..Len(Steps(q)) : OkTop(D, q.e, Steps(q)[i], Dev \cup S)
 
 \* as implemented (F-C18-7, deviation gap_sample_runaway), modelled for the sentinel shape only: a top level
 \* *_over_time(m[r]) with r < step, the epoch of the data set known, a series with ONE fetched sample that falls
@@ -517,15 +514,13 @@ RunawayExtra(D, q) ==
 
 KnownAnswers(D, q, ideal) ==
   LET ts == Steps(q)
-      NRel(i) == Cardinality(RelevantOf(D, q.e, i))
-      K(i) == LET dv == Dev \cup RelevantOf(D, q.e, i)
-                  rel == IF Cardinality(KnownDevs[i][2]) = 1 THEN NRel(i) = 1 ELSE NRel(i) >= 2
-                  ok == rel /\ \A j \in 1..Len(ts) : OkTop(D, q.e, ts[j], dv)
-                  vs == IF ok THEN DirectVecs(D, q, dv) ELSE ideal
-                  rs0 == SetToSeq(RelevantOf(D, q.e, i))
-              IN [id |-> KnownDevs[i][1], ids |-> [j \in 1..Len(rs0) |-> FindingOfDev(rs0[j])], differs |-> ok /\ vs # ideal,
+      cs == SetToSeq(Combos(D, q.e))
+      K(S) == LET dv == Dev \cup S
+                  vs == DirectVecs(D, q, dv)
+                  rs0 == SetToSeq(S)
+              IN [id |-> "F-C18", ids |-> [j \in 1..Len(rs0) |-> FindingOfDev(rs0[j])], differs |-> vs # ideal,
                   ans |-> IF q.kind = "instant" THEN VecOut(vs[1]) ELSE MatrixOf(ts, vs)]
-      ks == [i \in 1..Len(KnownDevs) |-> K(i)]
+      ks == [i \in 1..Len(cs) |-> K(cs[i])]
       rw == IF q.kind = "range" /\ Runaway(D, q) /\ RunawayModelled(D, q)
               THEN <<[id |-> "F-C18-7", ids |-> <<"F-C18-7">>, differs |-> TRUE, ans |-> MatrixOf(ts, ideal) \o RunawayExtra(D, q)]>> ELSE <<>>
   IN SelectSeq(ks, LAMBDA k : k.differs) \o rw
